@@ -46,6 +46,17 @@ def run(ctx):
         # one pool pushed per server iteration: the push of the built pool is in the servers loop, once
         pushes = [c for c in fc.calls("re:^alloc::vec::Vec::push$") if any(o.kind == "call" and re.search(r"Builder::(build|build_unchecked)$", o.call.name) for o in origins(fc, c.args[1], taint=True))]
         r1.check(len(pushes) == 1, "one-pool-per-server", "exactly one push of a built pool per server iteration", "%d pushes of built pools" % len(pushes))
+    # ... and a pool that a reload keeps is one that was built with this pool_size: the identity compared covers the users of the section (round 11; the
+    # struct-level clauses - Hash for User feeds every field - are C14-R3's, shared)
+    from common import kept_pool_identity_findings, definition_identity_findings
+    kp = kept_pool_identity_findings(F)
+    if kp is None:
+        r1.missing("the comparison of config_hash with the new identity in from_config")
+    for key, ok, okmsg, failmsg, where in kp or []:
+        r1.check(ok, key, okmsg, failmsg, where)
+    for key_, ok_, okm_, fm_ in definition_identity_findings(F):
+        if key_ in ("Hash:User", "Hash:Pool", "hash_value:as-is"):
+            r1.check(ok_, "kept-pool-identity:" + key_, okm_, fm_ + " - a reload that changes pool_size only would keep the bb8 pool with the old max_size")
     mp = ctx.body(MIRROR_POOL, r1)
     if mp:
         ms = mp.calls("re:^bb8::api::Builder::max_size$")
